@@ -260,7 +260,7 @@ class C06(Property):
                                  (2, "zeronum"), (2, "cascade"),
                                  (1, "parallel"), (2, "divterm"),
                                  (2, "sharedhub"), (1, "linearize"),
-                                 (2, "fraclin"),
+                                 (2, "fraclin"), (2, "polydiv"),
                                  (1, "copyonly")])
     if shape == "zeronum":
       # free response: empty numerator, feedback only (needs a delay term)
@@ -365,6 +365,18 @@ class C06(Property):
               "b": {"op": "single", "route": "expr",
                     "num": [[dk, coeff(p_stream=(2, 3))]],
                     "den": [[0, ["c", 1]]]}}
+    elif shape == "polydiv":
+      # the numerator polynomial of a filter divided, as a Poly, by a
+      # one-term Poly whose coefficient is a Stream (g * x**d): every term
+      # of the numerator is divided by that same stream
+      dk = W.choose("pdk", 3)
+      a = single()
+      a["num"] = [[k + dk, c] for k, c in a["num"]]        # stays causal
+      tree = {"op": "polydiv", "a": a, "d": dk,
+              "c": coeff(p_stream=(4, 5))}
+      if tree["c"][0] not in ("s", "c"):
+        ctr[0] += 1
+        tree["c"] = ["s", ctr[0]]
     elif shape == "sub":
       tree = {"op": "sub", "a": single(), "b": single()}
     elif shape == "neg":
@@ -735,6 +747,10 @@ class C06(Property):
       if op == "copyonly":
         keep_alive.append(rec(t["a"]))    # the original is never called
         return keep_alive[-1].copy()
+      if op == "polydiv":
+        f = rec(t["a"])
+        Poly = type(f.numpoly)
+        return ZFilter(f.numpoly / Poly({t["d"]: cval(t["c"])}), f.denpoly)
       if op == "linearize":
         return rec(t["a"]).linearize()    # integer delays: the same filter
       if op == "fraclin":
@@ -837,6 +853,10 @@ class C06(Property):
       sf, sc = {"f+c": (1, 1), "c+f": (1, 1), "f-c": (1, -1),
                 "c-f": (-1, 1)}[t["how"]]
       return padd(pscale(sf, n1), pscale(sc * c, d1)), d1
+    if op == "polydiv":
+      n1, d1 = self.spec_polys(t["a"], n)
+      c = cv(t["c"])
+      return dict((k - t["d"], v / c) for k, v in n1.items()), d1
     if op == "dupscale":
       n1, d1 = self.spec_polys(t["a"], n)
       k = t["c1"] + t["c2"] if t["how"] == "+" else t["c1"] - t["c2"]
